@@ -78,6 +78,9 @@ def prop(r):
             return res if f == "in" else ("not", res)
         inner = ("atom", Rat.of_atom(form.atom("in", at.args)).key())
         return inner if f == "in" else ("not", inner)
+    if f == "cmp_le" and len(at.args) == 2 and isinstance(at.args[0], Rat) and isinstance(at.args[1], Rat):
+        # a <= b  is  not (b < a): one atomic proposition for both spellings
+        return ("not", prop(form.apply("cmp_lt", [at.args[1], at.args[0]])))
     if f == "cmp_ne":
         return ("not", prop(Rat.of_atom(form.atom("cmp_eq", at.args))))
     if f == "cmp_eq":
